@@ -352,6 +352,7 @@ impl Property for C03 {
             files: Default::default(),
             timing: has_sleep(&root),
             io: false,
+            fixed_faults: Default::default(),
             expect: serde_json::json!({ "value": expected.to_string() }),
             shape: h.0,
             est_len: 100,
